@@ -17,6 +17,11 @@
 //! `AnimSection::parse` derives the bone count from it ((size - 16) / 4), so a library-written file
 //! with bone records does not parse back. The seeds patch `entry.size` to 16 + 4 * bones (what the
 //! parser expects); "modern-static" needs no patch (no bone records).
+//! Since /repo commit aa82f05 `AnimFile::parse` passes the section's file position to `AnimSection::parse_at`, which
+//! ends the bone offset table at the first non-zero (absolute) bone offset when `entry.size` is larger than the table:
+//! "modern-2sec-asbuilt" is the UNPATCHED writer output of the "modern-2sec" content (entry.size = byte length of the
+//! whole section), so that the `table_end = min(size, offset - start).max(position)` arithmetic runs on the baseline
+//! (section 0: first bone animated, section 1: first bone static, second animated).
 use crate::seed::{Aux, Seed};
 use crate::worker::{errname, Runner};
 use std::io::Cursor;
@@ -28,7 +33,7 @@ use wow_m2::common::{C3Vector, Quaternion};
 use wow_m2::{AnimFile, AnimFormat, AnimMetadata};
 
 pub fn seed_names(thorough: bool) -> Vec<String> {
-    let mut v = vec!["modern-2sec".to_string(), "legacy-2sec".to_string()];
+    let mut v = vec!["modern-2sec".to_string(), "legacy-2sec".to_string(), "modern-2sec-asbuilt".to_string()];
     if thorough {
         v.push("modern-static".into());
         v.push("modern-1sec-rot".into());
@@ -59,7 +64,7 @@ fn section(id: u32, bones: Vec<AnimBoneAnimation>) -> AnimSection {
 
 fn sections(name: &str) -> Vec<AnimSection> {
     match name {
-        "modern-2sec" | "legacy-2sec" => vec![
+        "modern-2sec" | "legacy-2sec" | "modern-2sec-asbuilt" => vec![
             section(4, vec![bone(0, 3, 2, 0), bone(0, 0, 0, 0), bone(2, 0, 2, 2)]),
             section(5, vec![bone(0, 0, 0, 0), bone(1, 2, 0, 0)]),
         ],
@@ -102,6 +107,10 @@ fn build_modern(name: &str) -> Seed {
     let eo = u32_at(&bytes, 16) as usize;
     for (i, sec) in secs.iter().enumerate() {
         let want = 16 + 4 * sec.bone_animations.len() as u32;
+        if name.ends_with("-asbuilt") {
+            assert!(u32_at(&bytes, eo + 12 * i + 8) > want, "anim: the writer's entry.size is expected to cover the bone records");
+            continue;
+        }
         bytes[eo + 12 * i + 8..eo + 12 * i + 12].copy_from_slice(&want.to_le_bytes());
     }
     let mut s = Seed::new("anim", name, bytes);
